@@ -34,3 +34,20 @@ Print Assumptions c20_step_inv.
 Theorem c20_run_inv : forall ops s, inv s -> Forall inv (run_states s ops).
 Proof. exact run_inv. Qed.
 Print Assumptions c20_run_inv.
+
+(* API orders that must neither restart nor disturb a server (C05: no sequence of documented calls may break it) *)
+Theorem c20_serve_while_serving : forall s,
+  s_serving s = true -> s_closed s = false -> server_step s OServe = (s, SServeBusy).
+Proof. exact serve_while_serving. Qed.
+Print Assumptions c20_serve_while_serving.
+
+Theorem c20_listener_failure_is_final : forall s, s_serving s = true ->
+  let s' := fst (server_step s OBreak) in s_closed s' = true /\ s_serving s' = false /\ s_running s' = [].
+Proof. exact break_finishes. Qed.
+Print Assumptions c20_listener_failure_is_final.
+
+Theorem c20_finished_server_never_serves : forall ops s,
+  inv s -> s_closed s = true -> s_serving s = false ->
+  Forall (fun st => s_serving st = false /\ s_running st = []) (run_states s ops).
+Proof. exact finished_server_never_serves. Qed.
+Print Assumptions c20_finished_server_never_serves.
